@@ -111,6 +111,12 @@ def storedUpd (sp : Spec) (tbl : Table) (i : Nat) : Option (Option Int) :=
     (match fire tbl s, sp.val i with
      | some x, some stv => some (some (f2 (op + 1) x stv))
      | _, _ => none)
+  | .holdz _ c =>
+    (match fire tbl i with
+     | some v => some (some v)
+     | none => (match sp.stored.get i, sp.val c with
+        | none, some v => some (some v)
+        | _, _ => none))
   | d => if d.isCell then (match fire tbl i with | some v => some (some v) | none => none) else none
 
 /-- what `applyUpdates` writes into `onceDone` slot `i` -/
@@ -129,6 +135,9 @@ theorem applyUpdates_stored (sp : Spec) (tbl : Table) :
   unfold optSet storedUpd
   split
   · split <;> simp_all
+  · split
+    · simp_all
+    · split <;> simp_all
   · split
     · split <;> simp_all
     · simp_all
